@@ -1,6 +1,10 @@
 package vs
 
-import "time"
+import (
+	"strings"
+	"time"
+	"unsafe"
+)
 
 // ---- vector clocks and the happens-before race oracle ----------------------------------------
 
@@ -36,55 +40,72 @@ func (v VC) leq(o VC) bool {
 
 type accessRec struct {
 	thread int
-	name   string
-	vc     VC
+	clock  int // the thread's own clock component at the access (epoch)
 	site   string
+	name   string
 }
 
+type accessKey struct {
+	p   unsafe.Pointer
+	obj bool
+}
+
+// MapPtr is the identity of the map object held by the map variable m.
+func MapPtr[M any](m *M) unsafe.Pointer { return *(*unsafe.Pointer)(unsafe.Pointer(m)) }
+
+// Acc is one access recorded by AV.
+type Acc struct {
+	p unsafe.Pointer
+	s string
+}
+
+func A(p unsafe.Pointer, s string) Acc { return Acc{p, s} }
+
 type accessState struct {
-	lastWrite *accessRec
+	lastWrite accessRec
+	hasWrite  bool
 	reads     []accessRec
 }
 
 // Access is inserted by the rewriter before reads/writes of package-level variables and of locals
 // captured by a go-closure. Two accesses to one location from different threads, at least one a
-// write, unordered by happens-before, are a data race.
-func Access(loc string, write bool) {
+// write, unordered by happens-before, are a data race. An earlier access (u, c) happens before the
+// current thread's position iff c <= vc[u] (epoch test; clocks advance at every release).
+func Access(ptr unsafe.Pointer, loc string, write bool, site string) {
 	sc := s
 	if sc == nil || sc.aborting || sc.cur == nil {
 		return
 	}
 	t := sc.cur
-	t.vc.tick(t.id)
-	st := sc.access[loc]
+	key := accessKey{ptr, strings.HasSuffix(loc, "#obj")}
+	st := sc.access[key]
 	if st == nil {
 		st = &accessState{}
-		sc.access[loc] = st
+		sc.access[key] = st
 	}
-	site := callerSite(2)
-	rec := accessRec{t.id, t.name, t.vc.clone(), site}
+	rec := accessRec{t.id, t.vc[t.id], site, t.name}
 	report := func(o *accessRec, oWrite bool) {
-		key := loc + "|" + o.site + "|" + site
+		a, b := o.site, site
+		key := loc + "|" + a + "|" + b
 		if sc.raceSeen[key] {
 			return
 		}
 		sc.raceSeen[key] = true
-		sc.races = append(sc.races, Race{Loc: loc, A: o.name, B: t.name, AWrite: oWrite, BWrite: write, ASite: o.site, BSite: site})
+		sc.races = append(sc.races, Race{Loc: loc, A: o.name, B: t.name, AWrite: oWrite, BWrite: write, ASite: a, BSite: b})
 	}
-	if w := st.lastWrite; w != nil && w.thread != t.id && !w.vc.leq(t.vc) {
+	if w := &st.lastWrite; st.hasWrite && w.thread != t.id && w.clock > t.vc[w.thread] {
 		report(w, true)
 	}
 	if write {
 		for i := range st.reads {
 			r := &st.reads[i]
-			if r.thread != t.id && !r.vc.leq(t.vc) {
+			if r.thread != t.id && r.clock > t.vc[r.thread] {
 				report(r, false)
 			}
 		}
-		st.lastWrite = &rec
+		st.lastWrite, st.hasWrite = rec, true
 		st.reads = st.reads[:0]
 	} else {
-		// keep one read record per thread
 		for i := range st.reads {
 			if st.reads[i].thread == t.id {
 				st.reads[i] = rec
@@ -114,11 +135,11 @@ func (o *SyncObj) Acquire() {
 // Release publishes the current thread's clock into the object (before an unlock / store).
 func (o *SyncObj) Release() {
 	if s != nil && s.cur != nil {
-		s.cur.vc.tick(s.cur.id)
 		if o.vc == nil {
 			o.vc = VC{}
 		}
 		o.vc.join(s.cur.vc)
+		s.cur.vc.tick(s.cur.id)
 	}
 }
 
@@ -131,10 +152,15 @@ func SchedPoint(desc string) {
 
 // AV records accesses ("loc:r" / "loc:w") made while evaluating v and returns v (used by the
 // rewriter for loop conditions, which are re-evaluated on every iteration).
-func AV[T any](v T, accs ...string) T {
-	for _, a := range accs {
+func AV[T any](v T, accs ...Acc) T {
+	for _, ac := range accs {
+		a := ac.s
 		if n := len(a); n > 2 {
-			Access(a[:n-2], a[n-1] == 'w')
+			body, site := a[:n-2], ""
+			if i := strings.LastIndex(body, "@"); i >= 0 {
+				body, site = body[:i], body[i+1:]
+			}
+			Access(ac.p, body, a[n-1] == 'w', site)
 		}
 	}
 	return v
